@@ -35,6 +35,7 @@ TECHNIQUE += '; generate_model interpreted whole on stand-in grammars with inter
 LEVEL_TEXT += ' Added clause: a class keeps the base some rule declared for it, wherever else it is mentioned.'
 TECHNIQUE += '; names bound in the namespace that serves as synthesis registry'
 TECHNIQUE += '; the generated model module declares no class named like a builtin type (C07.R7, whole generate_model interpreted)'
+TECHNIQUE += '; no process-wide memo in the object-model modules (R10 = C10.R3)'
 LEVEL_TEXT += " Added clause: only synthesized classes answer for a rule type (known finding for the module's own names)."
 LEVEL_NOTE = 'Eager interpretation of generators (a generator call whose values are not consumed contributes nothing, as in Python).'
 EXPLANATION = ('Static analysis of /repo sources, TatSu not imported. The dfs inside Node._cached_children is interpreted by the '
